@@ -86,10 +86,11 @@ def main(ctx):
     strings = list(short_strings(ALPHABET, maxlen))
     ctx.cov['exhaustive_short'] = 'all %d strings of length <= %d over %r x 4 option settings' % (
         len(strings), maxlen, ''.join(ALPHABET))
-    rnd = random_queries(ctx, 400 if ctx.tier == 'quick' else 4000)
+    rnd = random_queries(ctx, 1000 if ctx.tier == 'quick' else 6000)
     parse_part(ctx, uri, model, strings + rnd)
-    req_strings = list(short_strings(ALPHABET, 3)) + rnd
-    req_strings += ctx.rng.sample(strings, 6000 if ctx.tier == 'quick' else 60000)
+    req_strings = list(short_strings(ALPHABET, 4)) + rnd
+    if ctx.tier != 'quick':
+        req_strings += ctx.rng.sample(strings, 80000)
     request_part(ctx, model, req_strings)
     to_qs_part(ctx, uri, model)
 
@@ -182,8 +183,9 @@ def request_part(ctx, model, strings):
     corr = None
     rng = ctx.rng
     jobs = []
-    for s in strings:
-        kb, csv = rng.choice(OPTS)
+    # every option setting for the shortest strings, a seeded one for the rest
+    plan = [(s, o) for s in strings if len(s) <= 2 for o in OPTS] + [(s, rng.choice(OPTS)) for s in strings if len(s) > 2]
+    for s, (kb, csv) in plan:
         asgi = rng.random() < 0.5
         req_flag = rng.random() < 0.3
         mn, mx = rng.choice([(None, None), (0, None), (None, 4), (1, 41), (5, 3)])
